@@ -13,7 +13,14 @@ if os.environ.get("PYTHONHASHSEED") is None:
     os.environ["PYTHONHASHSEED"] = "0"
     os.execv(sys.executable, [sys.executable, "-m", "simcheck"] + sys.argv[1:])
 
-import simkit
+import signal
+
+# A check started as a background job of a non-interactive shell (`cmd &`, nohup) inherits SIGINT = SIG_IGN; Python then
+# installs no SIGINT handler and asyncio.Runner does not install its own, so a *simulated* Ctrl-C would silently do nothing.
+# The simulation must not depend on how it was launched: restore the interpreter's default handler.
+signal.signal(signal.SIGINT, signal.default_int_handler)
+
+import simkit  # noqa: E402
 
 simkit.use_repo_tree()
 
